@@ -1,4 +1,5 @@
 import RsMatterVerif.Lemmas.AdminRec
+import RsMatterVerif.Lemmas.AdminReset
 /-!
 # C07 — nothing bound to a fabric outlives that fabric
 
@@ -74,6 +75,69 @@ example :
       .addnoc 2 2 6 11 101 2]
     (run {} {} ops).fabrics.length = 1 ∧ (step {} (run {} {} ops) (.acl 1 77)).2 = .err "nosess" := by
   refine ⟨by decide +kernel, by decide +kernel⟩
+
+/-! ## the factory reset of the RUNNING node, the store fault on ANY of its store calls
+
+`Op.kvfail` places a fault at most on the third next store call, i.e. a factory reset is hit on one of
+the first three fabric keys only. `OpR.fresetAt k` (Model/AdminReset.lean) is the factory reset whose
+`k`-th store call fails, `k` over all 261 calls (fabric keys, basic info, RTC, the CASE resumption
+cache, the group data counter, the networks). The theorems below render the sentence of C07 "once a
+fabric is gone from the node [...] no session, [...] session-resumption record [...] of that fabric can
+be used any more, and a fabric added later (even if it receives the same local index) is never
+reachable with the old fabric's credentials" for the fabrics a factory reset takes away, on the node
+that KEEPS RUNNING (no restart that would filter anything). -/
+
+/-- **Invariant over the extended alphabet**: `NoRef` after every history in which factory resets are
+hit by a store fault at any of their store calls. -/
+theorem noRef_alwaysR (cfg : Cfg) (ops : List OpR) : NoRef (runR cfg {} ops) := by
+  have key : ∀ (ops : List OpR) (n : Node), NoRef n → NoRef (runR cfg n ops) := by
+    intro ops
+    induction ops with
+    | nil => intro n h; exact h
+    | cons op rest ih => intro n h; exact ih _ (stepR_noRef cfg n op h)
+  exact key ops {} noRef_init
+
+/-- **After a factory reset - whatever it answered, whichever of its store calls failed - the running
+node holds no fabric, no session of a fabric and no cached resumption record**: for every history
+`ops` (faulty resets included) and every fault position `k`. The in-memory part of every
+`reset_persist` runs before its store call (repo fix 91b47f3, the contract stated in
+`Matter::factory_reset`); a part that asks the store first (seeded change C07c) contradicts this
+statement at `k = resetPosResum`, and the correspondence stream (`fresetk 259`) shows it. -/
+theorem factory_reset_drops_references_any_fault (cfg : Cfg) (ops : List OpR) (k : Nat) :
+    (runR cfg {} (ops ++ [.fresetAt k])).fabrics = [] ∧
+    (∀ s ∈ (runR cfg {} (ops ++ [.fresetAt k])).sessions, s.mode.fab = 0) ∧
+    (runR cfg {} (ops ++ [.fresetAt k])).resum = [] := by
+  rw [runR_append]
+  have ⟨h1, h2, h3, _⟩ := factoryResetAt_mem (runR cfg {} ops) k
+  refine ⟨h1, fun s hs => ?_, h3⟩
+  have hs' : s ∈ (factoryResetAt (runR cfg {} ops) k).1.sessions := hs
+  rw [h2, List.mem_filter] at hs'
+  simpa using hs'.2
+
+/-- hence, on the running node, a CASE resumption right after the reset finds no record - whatever
+record id the peer of an old fabric offers -/
+theorem after_any_reset_resume_finds_no_record (cfg : Cfg) (ops : List OpR) (k rid newRid : Nat) :
+    (step cfg (runR cfg {} (ops ++ [.fresetAt k])) (.resume rid newRid)).2 = .err "norec" := by
+  have ⟨_, _, h3⟩ := factory_reset_drops_references_any_fault cfg ops k
+  simp [step, isSessOp, h3]
+
+/-- the replay of the seeded change C07c on the model (= the fixed code): commissioning, CASE session
+of peer 100 with record 1, the cache is stored, the factory reset fails on the resumption key - the
+cached record is gone all the same, the blob stays and is remembered (`resumStale`); the node is
+commissioned again WITHOUT a restart (index 1 again; `AddNOC` stores the empty cache first): the old
+peer's resumption finds nothing, before and after a restart -/
+example :
+    let ops : List OpR := ([.boot, .pase, .arm 0 60, .csr 0 false, .root 0 1, .addnoc 0 1 5 10 100 1,
+      .caseEst 1 100 1, .complete 1, .flush] : List Op).map .base ++ [.fresetAt resetPosResum] ++
+      ([.boot, .pase, .arm 2 60, .csr 2 false, .root 2 2, .addnoc 2 2 6 11 101 2] : List Op).map .base
+    (stepR {} (runR {} {} (ops.take 10)) (.base (.resume 1 9))).2 = .err "norec" ∧
+    (runR {} {} (ops.take 10)).resumStale = true ∧ (runR {} {} (ops.take 10)).kv.resum ≠ .absent ∧
+    (runR {} {} ops).fabrics.map (·.idx) = [1] ∧ (runR {} {} ops).resum = [] ∧
+    (runR {} {} ops).kv.resum = .recs [] ∧
+    (stepR {} (runR {} {} ops) (.base (.resume 1 9))).2 = .err "norec" ∧
+    (stepR {} (runR {} {} (ops ++ [.base .restart])) (.base (.resume 1 9))).2 = .err "norec" := by
+  refine ⟨by decide +kernel, by decide +kernel, by decide +kernel, by decide +kernel, by decide +kernel,
+    by decide +kernel, by decide +kernel, by decide +kernel⟩
 
 /-- nothing usable refers to a fabric index that is not in the table -/
 theorem gone_fabric_unreferenced (n : Node) (h : NoRef n) (i : Nat) (hi : i ≠ 0) (hgone : hasFabric n i = false) :
